@@ -11,6 +11,7 @@ import (
 	"os/exec"
 	"sort"
 	"strings"
+	"sync/atomic"
 )
 
 // ---- splitmix64: every random choice of a run derives from one state
@@ -149,11 +150,18 @@ type Result struct {
 func NewResult(prop, tier string, seed uint64) *Result {
 	return &Result{Property: prop, Tier: tier, Seed: seed, Nontrivial: map[string]int{}, Distribution: map[string]int{}}
 }
-func (r *Result) Count(k string)        { r.Distribution[k]++ }
+func (r *Result) Count(k string)         { r.Distribution[k]++ }
 func (r *Result) CountN(k string, n int) { r.Distribution[k] += n }
 
 // Case records one evaluated case; key identifies it for the distinct count; nontrivial by the stream's rule.
+// Progress counts the cases judged so far (read by the stall watchdog of cmd/vcheck)
+var Progress int64
+
+// Tick tells the watchdog that the harness is alive (for long waits that judge no case)
+func Tick() { atomic.AddInt64(&Progress, 1) }
+
 func (r *Result) Case(key string, nontrivial bool) {
+	atomic.AddInt64(&Progress, 1)
 	r.Evaluations++
 	if nontrivial {
 		r.Nontrivial[key]++
